@@ -5,7 +5,7 @@ def _reg(mod, names):
 _reg('blake', ['B1', 'B2', 'B3', 'B4', 'B5'])
 _reg('argon', ['G1', 'G2', 'G4'])
 _reg('aes', ['A1', 'A2', 'A3', 'A5'])
-_reg('isa', ['I1'])
+_reg('isa', ['I1', 'I4', 'I6'])
 _reg('jit', ['J1'])
 _reg('recip', ['R1', 'R2'])
 _reg('api', ['H1', 'D2', 'I7'])
@@ -49,5 +49,8 @@ PROPS = {
    explanation='TODO', trusted=[], outside=[]),
  'C09': dict(level='translation_validation', lemmas=['S4', 'S1'],
    files=['src/superscalar.cpp', 'src/superscalar.hpp', 'src/superscalar_program.hpp', 'src/blake2_generator.cpp', 'src/dataset.cpp', 'src/jit_compiler_x86.cpp', 'src/reciprocal.c', 'doc/specs.md'],
+   explanation='TODO', trusted=[], outside=[]),
+ 'C07': dict(level='other', lemmas=['I4', 'I6', 'I1', 'J1'],
+   files=['src/bytecode_machine.cpp', 'src/bytecode_machine.hpp', 'src/jit_compiler_x86.cpp', 'src/configuration.h', 'src/common.hpp', 'doc/specs.md'],
    explanation='TODO', trusted=[], outside=[]),
 }
